@@ -85,7 +85,8 @@ def gen_case(rng, ctype, signed):
             fl = fl - d
         elif signed and r < 0.1:
             fl = fl + d
-    return {"ctype": ctype, "offsets": o2, "lines": l2, "form": "dict", "code_len": o2[-1] + 10, "firstlineno": fl}
+    return {"ctype": ctype, "offsets": o2, "lines": l2, "form": "dict", "code_len": o2[-1] + 10, "firstlineno": fl,
+            "refreeze": rng.random() < 0.15}
 
 
 def run(tier, scratch, t0, replay=None):
@@ -147,6 +148,9 @@ def run(tier, scratch, t0, replay=None):
         queries = sorted(set([0] + c["offsets"] + [o + 2 for o in c["offsets"]] + [c["code_len"] - 2]))
         want = step(want_pairs, queries)
         det = {"offsets": c["offsets"], "lines": c["lines"], "form": c["form"], "firstlineno": c["firstlineno"]}
+        if c.get("refreeze"):
+            cls += ",frozen-before"
+            res.count("c19_mapping_supplied_to_an_already_frozen_object")
         if c["firstlineno"] != c["lines"][0]:
             cls += ",first-line-step"
             res.count("c19_first_instruction_not_on_firstlineno")
